@@ -122,6 +122,20 @@ def _addr_params(func, addr_attrs) -> set:
             out |= per or set()
         finally:
             _addr_params_busy.discard(id(func))
+    elif cls is None and source.enclosing_func(func) is None and getattr(func, "_module", None) is not None and id(func) not in _addr_params_busy:
+        # a module-level helper function (a step of race() extracted): a parameter that EVERY call site `helper(...)` in the module binds to an address expression of the caller
+        _addr_params_busy.add(id(func))
+        try:
+            per = None
+            for c in ast.walk(source.module_of(func).tree):
+                if isinstance(c, ast.Call) and isinstance(c.func, ast.Name) and c.func.id == func.name:
+                    caller = source.enclosing_func(c)
+                    cx = _Ctx(caller, addr_attrs) if caller is not None else None
+                    here = {p_ for p_, a_ in source.bind_args(c, func).items() if _addr_like(a_, cx)} if cx is not None else set()
+                    per = here if per is None else per & here
+            out |= per or set()
+        finally:
+            _addr_params_busy.discard(id(func))
     enc = source.enclosing_func(func)
     if enc is not None and any(isinstance(r_, ast.Return) and isinstance(r_.value, ast.Name) and r_.value.id == func.name for r_ in walk_body(enc)):
         # a handler wrapper (the guard a decorator returns): what it passes to the wrapped handler - a parameter of the decorator - in the sender position is the sender
@@ -1405,11 +1419,29 @@ def run(chk):
     else:
         # blocking notification (ask; the payload built in place or via a local) on every path through the handler, and the handler never completes normally
         asks = [n for n in ast.walk(kh[0]) if isinstance(n, ast.Call) and last_attr(n.func) == "ask" and _sends(n, race_fn, "BenchmarkCancelled")]
+        # ... or a call of a module-level helper that does the blocking notification on every normal path (the handler's body, or the notification alone, extracted)
+        for c in ast.walk(kh[0]):
+            h_ = rc.get(c.func.id, required=False) if isinstance(c, ast.Call) and isinstance(c.func, ast.Name) else None
+            if isinstance(h_, (ast.FunctionDef, ast.AsyncFunctionDef)) and h_ is not race_fn:
+                inner = [n for n in walk_body(h_) if isinstance(n, ast.Call) and last_attr(n.func) == "ask" and _sends(n, h_, "BenchmarkCancelled")]
+                gh_ = cfg_of(h_)
+                if inner and gh_.must_pass(gh_.entry, [gh_.node_of(n) for n in inner], normal_only=True):
+                    asks.append(c)
         hn_ = gr_.by_ast.get(id(kh[0]), [])
         raises_ = [gr_.node_of(r_) for r_ in ast.walk(kh[0]) if isinstance(r_, ast.Raise)]
-        ok = bool(asks) and bool(hn_) and bool(raises_) and all(gr_.exit.id not in gr_.reachable([x]) for x in hn_) \
-            and all(gr_.must_pass(x, [gr_.node_of(c) for c in asks], exits=raises_, normal_only=True) for x in hn_)
-        chk.ob("O9.9", "race(): KeyboardInterrupt -> ask(BenchmarkCancelled) then raise", ok, kh[0], "")
+        # calls of the handler the rule has not looked into (the exception that is raised at the end is constructed, not called for an effect)
+        opaque_ = _opaque_calls(kh[0], known=[r_.exc for r_ in ast.walk(kh[0]) if isinstance(r_, ast.Raise) and r_.exc is not None])
+        opaque_ = [c for c in opaque_ if not (isinstance(c.func, ast.Name) and isinstance(rc.get(c.func.id, required=False), (ast.FunctionDef, ast.AsyncFunctionDef)))]  # looked into above
+        # a notification that does not block (tell / send of BenchmarkCancelled) is located and wrong, not an unknown shape
+        nonblocking_ = [n for n in ast.walk(kh[0]) if isinstance(n, ast.Call) and last_attr(n.func) != "ask" and _sends(n, race_fn, "BenchmarkCancelled")]
+        if not asks and opaque_ and not nonblocking_:
+            # nothing in the handler is recognised as the notification, but it calls something the rule has not looked into: shape not recognised, not a verdict
+            chk.unknown("O9.9", f"race(): the KeyboardInterrupt handler does not ask race control with BenchmarkCancelled itself and calls `{short(opaque_[0], 50)}`, which is not followed", kh[0])
+        else:
+            ok = bool(asks) and bool(hn_) and bool(raises_) and all(gr_.exit.id not in gr_.reachable([x]) for x in hn_) \
+                and all(gr_.must_pass(x, [gr_.node_of(c) for c in asks], exits=raises_, normal_only=True) for x in hn_)
+            chk.ob("O9.9", "race(): KeyboardInterrupt -> ask(BenchmarkCancelled) then raise", ok, kh[0],
+                   f"race control is notified without waiting for its answer: {short(nonblocking_[0], 60)}" if nonblocking_ and not asks else "")
     exit_tells = [n for n in ast.walk(race_fn) if isinstance(n, ast.Call) and _sends(n, race_fn, "ActorExitRequest")]
     fin = [t for t in ast.walk(race_fn) if isinstance(t, ast.Try) and t.finalbody]
     if not exit_tells:
@@ -1608,12 +1640,68 @@ def run(chk):
         # ... and, of these, the ones whose event-is-set arm leaves the loop (never returns to the loop head: break / return / raise)
         good = [t for t in skips if not any(gl.path_exists(s_, head, edge_ok=gl.normal_edge) for s_ in _set_targets(t))]
         wrong = [t for t in tests if t[3] and t not in skips and gl.dominated_by_edge(R, t[1], t[2])]
+        def _below_loop():
+            """the extracted-loop-body shape: the cancel test sits in the helper method the loop calls for each request. In the helper the request is only reached while the event
+            is not set and the arm taken when it is set is `return <constant>` (logging aside); in the loop that constant, put in the place of the helper call, decides an `if`
+            (directly or through a single-assignment local) whose arm leaves the loop, and that `if` lies on every normal path from the call back to the loop head.
+            True / False (located and the loop goes on) / None (not this shape)"""
+            if i_loop + 1 >= len(ch):
+                return None
+            C, (H, n_h) = ch[i_loop][1], ch[i_loop + 1]
+            gh = cfg_of(H)
+            Rh, ts, consts = gh.node_of(n_h), [], []
+            for p in walk_body(H):
+                d_ = _event_decision(p.test, H) if isinstance(p, ast.If) and id(p) in gh.by_ast else None
+                if d_ is None or d_[0] is None:
+                    continue
+                if d_[1] is not None and d_[1] != d_[0] and gh.dominated_by_edge(Rh, gh.node_of(p), "true" if d_[0] else "false"):
+                    return False  # in the helper the request is only reached while the event IS set
+                tg = gh.edge_targets(gh.node_of(p), "true" if d_[0] else "false")
+                rest = [s_ for s_ in (p.body if d_[0] else p.orelse) if not is_logging_stmt(s_)]
+                if tg and not any(Rh.id in gh.reachable([s_]) for s_ in tg) and len(rest) == 1 and isinstance(rest[0], ast.Return) \
+                        and (rest[0].value is None or isinstance(rest[0].value, ast.Constant)):
+                    ts.append(gh.node_of(p))
+                    consts.append(None if rest[0].value is None else rest[0].value.value)
+            if not ts or Rh.id in gh.reachable([gh.entry], avoid=ts):
+                return None
+            ctxt = (u(C), source.inline(C, _ldefs(fn_l)))  # the test is compared after looking through locals, which also rewrites the call's arguments
+            for P in walk_body(fn_l):
+                if not (isinstance(P, ast.If) and id(P) in gl.by_ast and any(a_ is L for a_ in _anc_in(P, fn_l))):
+                    continue
+                e_ = source.inline_node(P.test, _ldefs(fn_l))
+                if not any(isinstance(x, ast.Call) and u(x) in ctxt for x in ast.walk(e_)):
+                    continue
+                Pn = gl.node_of(P)
+                if Pn.id != R.id and head.id in gl.reachable([R], avoid=[Pn], edge_ok=gl.normal_edge):
+                    return None
+                outcomes = []
+                for cst in consts:
+                    class T(ast.NodeTransformer):
+                        def visit_Call(self, n):
+                            return ast.Constant(value=cst) if u(n) in ctxt else self.generic_visit(n)
+
+                        def visit_Await(self, n):
+                            self.generic_visit(n)
+                            return n.value if isinstance(n.value, ast.Constant) else n
+                    try:
+                        v_ = bool(_ev(T().visit(source.clone(e_)), {}))
+                    except (CannotEval, TypeError, ValueError):
+                        return None
+                    tg = gl.edge_targets(Pn, "true" if v_ else "false")
+                    outcomes.append(bool(tg) and not any(gl.path_exists(s_, head, edge_ok=gl.normal_edge) for s_ in tg))
+                return all(outcomes)
+            return None
+
+        below = None
         if _dominated(good):
             chk.ob("O9.9", lab_, True, good[0][0], "")
         elif _dominated(skips):
             chk.ob("O9.9", lab_, False, skips[0][0], "when the event is set the request is skipped but the iteration does not leave the loop (no break / return / raise on that arm)")
         elif wrong:
             chk.ob("O9.9", lab_, False, wrong[0][0], f"the request is only issued while the cancel event IS set (`{short(wrong[0][0].test, 60)}`)")
+        elif not tests and (below := _below_loop()) is not None:
+            chk.ob("O9.9", lab_, below, ch[i_loop][1], "" if below else f"AsyncExecutor.{ch[i_loop + 1][0].name} tests the cancel event, but either issues the request only while it is set or returns a value "
+                   "that does not make the loop end: the next iteration issues a request")
         else:
             # neither: is every read of the event in the executor accounted for by the located tests (in the test itself, in the single-assignment local it uses, in the
             # predicate helper it calls)? Then the event is known to be tested only at places an iteration need not pass before the request (located and wrong); a read that
@@ -1921,6 +2009,56 @@ def _only_via_raise(g, start):
 from sa.selftest import V  # noqa: E402
 
 _D = "esrally/driver/driver.py"
+
+# --- text builders for the structural variants of AsyncExecutor.__call__ (hardening round 3): the request loop / its body moved into helper methods. They are used as the
+# replacement function of a regex variant (one match: __call__ up to the loop, the loop, the broad handler that follows it).
+_X_CALL_RE = (r"(    async def __call__\(self, \*args, \*\*kwargs\):\n        any_task_completes_parent.*?)"
+              r"(            async for expected_scheduled_time, sample_type, percent_completed, runner, params in schedule:\n.*?)"
+              r"(        except BaseException as e:\n            self\.logger\.exception\(\"Could not execute schedule\"\))")
+_X_CANCEL = "                if self.cancel.is_set():\n                    self.logger.info(\"User cancelled execution.\")\n                    break\n"
+_X_REQ = ("                with self.es[\"default\"].new_request_context() as request_context:\n"
+          "                    total_ops, total_ops_unit, request_meta_data = await execute_single(runner, self.es, params, self.on_error)\n"
+          "                    request_start = request_context.request_start\n                    request_end = request_context.request_end\n")
+_X_CALLDEF = "    async def __call__(self, *args, **kwargs):\n        any_task_completes_parent"
+_X_HELPER_CALL = "                total_ops, total_ops_unit, request_meta_data, request_start, request_end = await self._execute_request(runner, params%s)\n"
+_X_HELPER = ("    async def _execute_request(self, runner, params%s):\n        with self.es[\"default\"].new_request_context() as request_context:\n"
+             "            total_ops, total_ops_unit, request_meta_data = await execute_single(runner, self.es, params, %s)\n"
+             "            request_start = request_context.request_start\n            request_end = request_context.request_end\n"
+             "        return total_ops, total_ops_unit, request_meta_data, request_start, request_end\n\n")
+_X_CTOR = ("            async_executor = AsyncExecutor(\n                client_id, task, schedule, es, self.sampler, self.cancel, self.complete, task.error_behavior(self.abort_on_error)\n"
+           "            )\n")
+_X_ADP_CALL = "    def __call__(self, *args, **kwargs):\n        try:\n            loop = asyncio.get_running_loop()"
+_X_KH = ("        actor_system.ask(benchmark_actor, actor.BenchmarkCancelled())\n"
+         "        raise exceptions.UserInterrupted(\"User has cancelled the benchmark (detected by race control).\") from None\n")
+
+
+def _x_dedent(txt, k):
+    return "".join(line[k:] if line.strip() else line for line in txt.splitlines(True))
+
+
+def _x_loop_helper(mutate=lambda h: h):
+    """the whole request loop moved into `_run_schedule(...)`, awaited inside the try of __call__"""
+    def f(m):
+        helper = "    async def _run_schedule(self, schedule, schedule_start, total_start, task_completes_parent):\n" + _x_dedent(m.group(2), 4) + "\n"
+        return mutate(helper) + m.group(1) + "            await self._run_schedule(schedule, schedule_start, total_start, task_completes_parent)\n" + m.group(3)
+    return f
+
+
+def _x_body_helper(when_cancelled="True", test="self.cancel.is_set()"):
+    """the loop body INCLUDING the cancel test moved into `_one_request(...)`, which returns whether the loop has to end"""
+    def f(m):
+        loop = m.group(2)
+        done = "        if completed:\n            self.logger.info(\"Task [%s] is considered completed due to external event.\", self.task)\n"
+        at = loop.find("                absolute_expected_schedule_time = schedule_start")
+        body = _x_dedent(loop[at:], 8)
+        if at < 0 or _X_CANCEL not in loop[:at] or done + "            break\n" not in body:
+            raise AnchorMissing("request loop text")
+        args = "expected_scheduled_time, sample_type, percent_completed, runner, params, schedule_start, total_start, task_completes_parent"
+        helper = (f"    async def _one_request(self, {args}):\n        if {test}:\n            self.logger.info(\"User cancelled execution.\")\n            return {when_cancelled}\n"
+                  + body.replace(done + "            break\n", done + "        return completed\n") + "\n")
+        return helper + m.group(1) + loop[:at].replace(_X_CANCEL, "") + f"                if await self._one_request({args}):\n                    break\n" + m.group(3)
+    return f
+
 _R = "esrally/racecontrol.py"
 _M = "esrally/mechanic/mechanic.py"
 _A = "esrally/actor.py"
@@ -2114,6 +2252,56 @@ VARIANTS = [
      V("", "break", _R, "    def on_task_finished(self, new_metrics):", "    def mark_failed(self):\n        if self.race is not None:\n            self.error = True\n\n    def on_task_finished(self, new_metrics):")],
     V("dispatcher re-wraps the failure before it passes it on", "keep", _M, "    def receiveMsg_BenchmarkFailure(self, msg, sender):\n        self.send(self.start_sender, msg)",
       "    def receiveMsg_BenchmarkFailure(self, msg, sender):\n        self.send(self.start_sender, actor.BenchmarkFailure(msg.message, msg.cause))"),
+    # ---- hardening round 3: the request of the load generator by role (the execute_single call wherever it sits), the cancel test decided on the control-flow graph ----------
+    [V("executor: the request extracted into a helper method (benign C18-b6)", "keep", _D, _X_REQ + "\n", _X_HELPER_CALL % ""),
+     V("", "keep", _D, _X_CALLDEF, _X_HELPER % ("", "self.on_error") + _X_CALLDEF)],
+    [V("executor: the request helper receives the error behaviour as a parameter", "keep", _D, _X_REQ + "\n", _X_HELPER_CALL % ", self.on_error"),
+     V("", "keep", _D, _X_CALLDEF, _X_HELPER % (", on_error", "on_error") + _X_CALLDEF)],
+    [V("executor: the request helper is handed a CONSTANT error behaviour", "break", _D, _X_REQ + "\n", _X_HELPER_CALL % ", \"continue\"", "O9.9"),
+     V("", "break", _D, _X_CALLDEF, _X_HELPER % (", on_error", "on_error") + _X_CALLDEF)],
+    [V("executor: the request helper swallows what the request raises", "break", _D, _X_REQ + "\n", _X_HELPER_CALL % "", "O9.5"),
+     V("", "break", _D, _X_CALLDEF, "    async def _execute_request(self, runner, params):\n        try:\n            with self.es[\"default\"].new_request_context() as request_context:\n"
+       "                total_ops, total_ops_unit, request_meta_data = await execute_single(runner, self.es, params, self.on_error)\n"
+       "                return total_ops, total_ops_unit, request_meta_data, request_context.request_start, request_context.request_end\n"
+       "        except Exception:\n            self.logger.exception(\"request failed\")\n            return 0, \"ops\", {\"success\": False}, 0, 0\n\n" + _X_CALLDEF)],
+    [V("executor: the error behaviour hoisted into a local before the loop and passed by keyword", "keep", _D, "        total_start = time.perf_counter()\n        # lazily initialize the schedule",
+       "        total_start = time.perf_counter()\n        on_error = self.on_error\n        # lazily initialize the schedule"),
+     V("", "keep", _D, "execute_single(runner, self.es, params, self.on_error)", "execute_single(runner, self.es, params, on_error=on_error)")],
+    [V("request loop: the cancel test is a predicate helper of the executor", "keep", _D, _X_CANCEL, _X_CANCEL.replace("self.cancel.is_set()", "self._cancelled()")),
+     V("", "keep", _D, _X_CALLDEF, "    def _cancelled(self):\n        \"\"\"has the user cancelled?\"\"\"\n        return self.cancel.is_set()\n\n" + _X_CALLDEF)],
+    [V("request loop: the predicate helper reads the OTHER event (complete)", "break", _D, _X_CANCEL, _X_CANCEL.replace("self.cancel.is_set()", "self._cancelled()"), "O9.9"),
+     V("", "break", _D, _X_CALLDEF, "    def _cancelled(self):\n        return self.complete.is_set()\n\n" + _X_CALLDEF)],
+    V("request loop: cancel test merged with another stop condition", "keep", _D, _X_CANCEL, _X_CANCEL.replace("self.cancel.is_set()", "self.cancel.is_set() or runner is None")),
+    V("request loop: cancelled iterations are skipped but the loop goes on", "break", _D, _X_CANCEL, _X_CANCEL.replace("                    break\n", "                    continue\n"), "O9.9"),
+    [V("request loop: the cancel test comes after the request", "break", _D, _X_CANCEL, "", "O9.9"),
+     V("", "break", _D, "                processing_end = time.perf_counter()\n", _X_CANCEL + "                processing_end = time.perf_counter()\n")],
+    V("executor: the whole request loop moved into a helper method", "keep", _D, _X_CALL_RE, _x_loop_helper(), regex=True),
+    V("executor: loop in a helper method that goes on when cancelled", "break", _D, _X_CALL_RE,
+      _x_loop_helper(lambda h: h.replace("self.logger.info(\"User cancelled execution.\")\n                break", "self.logger.info(\"User cancelled execution.\")\n                continue")), "O9.9", regex=True),
+    [V("executor: loop in a helper method and the caller's broad handler swallows", "break", _D, _X_CALL_RE, _x_loop_helper(), "O9.5", regex=True),
+     V("", "break", _D, "            raise exceptions.RallyError(f\"Cannot run task [{self.task}]: {e}\") from None\n", "            pass\n")],
+    V("executor: the loop body with the cancel test moved into a helper that returns whether to stop", "keep", _D, _X_CALL_RE, _x_body_helper(), regex=True),
+    V("executor: the extracted loop body returns False when cancelled", "break", _D, _X_CALL_RE, _x_body_helper(when_cancelled="False"), "O9.9", regex=True),
+    V("executor: the extracted loop body returns early when NOT cancelled", "break", _D, _X_CALL_RE, _x_body_helper(test="not self.cancel.is_set()"), "O9.9", regex=True),
+    V("adapter: the task's error behaviour bound to a local and passed by keyword", "keep", _D, _X_CTOR,
+      "            on_error = task.error_behavior(default_error_behavior=self.abort_on_error)\n"
+      "            async_executor = AsyncExecutor(client_id, task, schedule, es, self.sampler, self.cancel, self.complete, on_error=on_error)\n"),
+    V("adapter: the allocation's task asked inline", "keep", _D, _X_CTOR,
+      "            async_executor = AsyncExecutor(client_id, task, schedule, es, self.sampler, self.cancel, self.complete, task_allocation.task.error_behavior(self.abort_on_error))\n"),
+    V("adapter: the raw on-error setting handed to the executor (task not asked)", "break", _D, _X_CTOR,
+      "            async_executor = AsyncExecutor(client_id, task, schedule, es, self.sampler, self.cancel, self.complete, self.abort_on_error)\n", "O9.9"),
+    [V("adapter: the error behaviour computed by a helper method of the adapter", "keep", _D, _X_CTOR,
+       "            async_executor = AsyncExecutor(client_id, task, schedule, es, self.sampler, self.cancel, self.complete, self._on_error_for(task))\n"),
+     V("", "keep", _D, _X_ADP_CALL, "    def _on_error_for(self, task):\n        return task.error_behavior(self.abort_on_error)\n\n" + _X_ADP_CALL)],
+    [V("adapter: the helper is asked with the allocation instead of the task", "break", _D, _X_CTOR,
+       "            async_executor = AsyncExecutor(client_id, task, schedule, es, self.sampler, self.cancel, self.complete, self._on_error_for(task_allocation))\n", "O9.9"),
+     V("", "break", _D, _X_ADP_CALL, "    def _on_error_for(self, task):\n        return task.error_behavior(self.abort_on_error)\n\n" + _X_ADP_CALL)],
+    [V("Ctrl+C: the blocking notification extracted into a module-level helper", "keep", _R, _X_KH, "        _notify_cancelled(actor_system, benchmark_actor)\n" + _X_KH.split("\n", 1)[1]),
+     V("", "keep", _R, "def race(cfg: types.Config", "def _notify_cancelled(actor_system, benchmark_actor):\n    actor_system.ask(benchmark_actor, actor.BenchmarkCancelled())\n\n\ndef race(cfg: types.Config")],
+    [V("Ctrl+C: the extracted helper only logs", "break", _R, _X_KH, "        _notify_cancelled(actor_system, benchmark_actor)\n" + _X_KH.split("\n", 1)[1], "O9.9"),
+     V("", "break", _R, "def race(cfg: types.Config", "def _notify_cancelled(actor_system, benchmark_actor):\n    logging.getLogger(__name__).info(\"cancelled\")\n\n\ndef race(cfg: types.Config")],
+    [V("Ctrl+C: the extracted helper notifies without waiting (tell)", "break", _R, _X_KH, "        _notify_cancelled(actor_system, benchmark_actor)\n" + _X_KH.split("\n", 1)[1], "O9.9"),
+     V("", "break", _R, "def race(cfg: types.Config", "def _notify_cancelled(actor_system, benchmark_actor):\n    actor_system.tell(benchmark_actor, actor.BenchmarkCancelled())\n\n\ndef race(cfg: types.Config")],
     V("dispatcher re-wraps the failure but only logs it", "break", _M, "    def receiveMsg_BenchmarkFailure(self, msg, sender):\n        self.send(self.start_sender, msg)",
       "    def receiveMsg_BenchmarkFailure(self, msg, sender):\n        failure = actor.BenchmarkFailure(msg.message, msg.cause)\n        self.logger.error(\"%s\", failure)", "O9."),
 ]
